@@ -69,6 +69,10 @@ CHECKS['C01'] = dict(
         dict(h='h_c01.c', mode='ms', flavour='asan-fixed', n={'quick': 2000, 'thorough': 50000}),
         dict(h='h_c01.c', mode='single', flavour='asan', n={'quick': 2000, 'thorough': 60000}, args=['cap=0']),
         dict(h='h_c01.c', mode='single', flavour='asan', n={'quick': 2000, 'thorough': 60000}, args=['cap=2']),
+        # MemorySanitizer: a decode path that reads memory it never wrote (the twin-memory monitor of C12 sees such a read
+        # only when it changes the output)
+        dict(h='h_c01.c', mode='single', flavour='msan', n={'quick': 1600, 'thorough': 40000}),
+        dict(h='h_c01.c', mode='ms', flavour='msan', n={'quick': 640, 'thorough': 16000}),
     ],
     min_nontrivial={'quick': 1500, 'thorough': 3000},
 )
